@@ -38,7 +38,7 @@ checks = {
 "C12": dict(engine="simsched", category="exploration",
   text="k=2..4 caller goroutines share evaluators/filters/data (mixed plans, hammer plans where every caller makes the same calls on one object, plans where callers only create their own objects); a cooperative scheduler that the race detector cannot see (plain loads/stores + Gosched, //go:norace) decides at statement granularity which caller runs, from seeded plans (back-to-back, PCT-style change points per operation, store-window bias, sync-gap bias right after lock/unlock/atomic statements, dense first-use, round-robin quanta, lockstep). Plans are executed in-process (throughput) and cold: generated by a purely sequential process, executed concurrent-run-first in fresh processes of the plain and the -race build. Oracles: every concurrent call returns what a fresh object returns sequentially; the outcome classes of the concurrent run and of the sequential run that follows it equal those of the sequential generating process (damage that outlives the objects); no ThreadSanitizer report (judged only by the synchronisation the library itself performs); shared data fingerprints unchanged; no deadlock on modelled locks. Seeded search over schedules: evidence, not proof.",
   design="4.1",
-  note="Trusted: ThreadSanitizer as shipped with the Go toolchain (its verdict is a proof when it reports; sync.Pool randomness under -race makes silence non-deterministic, so confirmations retry); statement-level yields (interleavings inside reflect/regexp/pointerstructure calls are not split); Mutex/RWMutex/Once are modelled, other blocking primitives inside the library are reported as unmodelled (exit 2).",
+  note="Trusted: ThreadSanitizer as shipped with the Go toolchain (its verdict is a proof when it reports; sync.Pool randomness under -race makes silence non-deterministic, so confirmations retry); statement-level yields (interleavings inside reflect/regexp/pointerstructure calls are not split); Mutex/RWMutex/Once/WaitGroup.Wait and go statements inside the library are modelled (spawned goroutines become tasks), channels/select/Cond are reported as unmodelled (a run that blocks on one ends in exit 2).",
   technique="deterministic simulation: seeded cooperative scheduling of caller goroutines with the race detector as in-run monitor and sequential-equivalence oracle"),
 }
 claimed = sys.argv[1:] if len(sys.argv) > 1 else []
